@@ -75,6 +75,7 @@ func runC12(c *Ctx) {
 	c12IndexValueRemapped(c, pk)
 	c12ReadAfterInPlace(c, pk)
 	c12AnyURLLastSlash(c, pk)
+	c12KeptImpliesWalked(c, pk)
 	batchKeyRule(c, "BATCH-KEY")
 	c12PathIndexPositional(c, pk)
 	info := pk.TypesInfo
